@@ -62,7 +62,7 @@ func writeManifest() error {
 			"level_claimed": map[string]any{
 				"category":   "other",
 				"text":       "Static analysis of /repo's current source, exhaustive over the stated scope (all paths of all functions in scope, i.e. all inputs/schedules at once), of structural necessary conditions of the property — not the behaviour itself. " + p.Explanation + " Not decided: " + p.NotCovered + ".",
-				"design_ref": "DESIGN.md §5 " + id,
+				"design_ref": "DESIGN.md Appendix A, " + id,
 			},
 			"level_note": "Trusted: go/types, go/cfg and go/ssa (x/tools v0.29.0) model the program; dependencies are type-checked, not analysed; reviewed exception tables in the checker (one reason per entry). " + fmt.Sprint(p.Trust),
 			"technique":  tech,
